@@ -1,6 +1,126 @@
-(* C41 - placeholder while the proofs are being written *)
-From Coq Require Import List ZArith Bool.
+(* C41 - ORM queries return the rows their relational meaning specifies.
+   Statements only; every proof is [exact <lemma>].  Model: coq/orm/Query.v. *)
+From Coq Require Import List ZArith Bool Arith.
 Import ListNotations.
-From SAV.orm Require Import Query.
-Example c41_stub : orm_count {| ps := []; cs := [] |} (QP (PS STrue)) = 0.
+From SAV.sql Require Import Val3.
+From SAV.orm Require Import Query QueryCrit QueryShapes QueryAsm QueryExtra.
+
+(* the entities (primary keys) and values of the ORM result correspond one-to-one, in order, with the rows of
+   the Core query the ORM compiles: for every database and every query of the grammar *)
+Theorem c41_orm_rows_biject_core_rows : forall d q,
+  map (map item_val) (orm_exec d q false) = core_exec d (orm_to_core d q).
+Proof. exact orm_rows_biject_core_rows. Qed.
+Print Assumptions c41_orm_rows_biject_core_rows.
+
+(* and that Core query (joins along the relationship, of_type criterion in the ON clause, correlated EXISTS,
+   IN subquery, GROUP BY, UNION; three-valued logic) computes the relational meaning of the ORM query stated on
+   the object graph - guarded: every object given to contains() has a parent *)
+Theorem c41_core_query_has_relational_meaning_guarded : forall d q, query_ok d q = true ->
+  core_exec d (orm_to_core d q) = meaning d q.
+Proof. exact core_exec_meaning. Qed.
+Print Assumptions c41_core_query_has_relational_meaning_guarded.
+
+Theorem c41_orm_rows_have_relational_meaning_guarded : forall d q, query_ok d q = true ->
+  map (map item_val) (orm_exec d q false) = meaning d q.
+Proof. exact orm_rows_meaning. Qed.
+Print Assumptions c41_orm_rows_have_relational_meaning_guarded.
+
+(* the excluded region is a real deviation: NOT contains(child whose foreign key is NULL) returns no parent *)
+Theorem c41_core_query_has_relational_meaning_refuted : exists d q,
+  core_exec d (orm_to_core d q) = [] /\ meaning d q = [[Some 4%Z]] /\ query_ok d q = false.
+Proof. exact core_meaning_refuted. Qed.
+Print Assumptions c41_core_query_has_relational_meaning_refuted.
+
+(* any(crit) == EXISTS (SELECT 1 FROM child WHERE fk = pk AND crit), has(crit) likewise, of_type(Sub).any adds the
+   single-table criterion; all two-valued, and a NULL foreign key relates the child to no parent *)
+Theorem c41_any_has_semantics : forall d,
+  (forall e pa p s, lookup e pa = grow_p p -> pa <> sub_alias ->
+     beval d e (tr_pcrit d pa (PAny s)) =
+     tv_of_bool (existsb (fun c => child_of c p && is_true (sxeval s (c_y c))) (cs d))) /\
+  (forall e pa p s, lookup e pa = grow_p p -> pa <> sub_alias ->
+     beval d e (tr_pcrit d pa (PAnySub s)) =
+     tv_of_bool (existsb (fun c => child_of c p && (is_sub c && is_true (sxeval s (c_y c)))) (cs d))) /\
+  (forall e ca c s, lookup e ca = grow_c c -> ca <> sub_alias ->
+     beval d e (tr_ccrit ca (CHas s)) =
+     tv_of_bool (existsb (fun p => child_of c p && is_true (sxeval s (p_x p))) (ps d))) /\
+  (forall c p, c_pid c = None -> child_of c p = false).
+Proof. exact any_has_semantics. Qed.
+Print Assumptions c41_any_has_semantics.
+
+(* the whole criterion language on P evaluates, inside any enclosing query, to its meaning (3VL) *)
+Theorem c41_criterion_meaning_guarded : forall d e pa p c,
+  lookup e pa = grow_p p -> pa <> sub_alias -> contains_ok d c = true ->
+  beval d e (tr_pcrit d pa c) = peval d p c.
+Proof. exact pcrit_tr. Qed.
+Print Assumptions c41_criterion_meaning_guarded.
+
+(* identity map: within one result the same (class, primary key) is the same object, different keys are
+   different objects, whatever row / column they appear in *)
+Theorem c41_identity_map_one_object_per_key : forall d q, exists M,
+  Forall (items_ok M (col_kinds q)) (orm_exec d q false) /\
+  forall t o pk t' o' pk', nth_error M o = Some ((t, pk), o) -> nth_error M o' = Some ((t', pk'), o') ->
+    (o = o' <-> (t = t' /\ pk = pk')).
+Proof. exact identity_map_one_object_per_key. Qed.
+Print Assumptions c41_identity_map_one_object_per_key.
+
+(* count() and exists() agree with the rows returned by select() + Session.execute() *)
+Theorem c41_count_exists_agree : forall d q,
+  orm_count d q = length (orm_exec d q false) /\
+  orm_exists d q = negb (Nat.eqb (length (orm_exec d q false)) 0).
+Proof. exact count_exists_agree. Qed.
+Print Assumptions c41_count_exists_agree.
+
+(* legacy Query.all() applies Result.unique(): refuted in general, proved when no two rows are the same
+   (objects compared by identity), and never more rows than count() *)
+Theorem c41_count_agree_legacy_refuted : exists d q,
+  orm_count d q = 3 /\ length (orm_exec d q true) = 2 /\ length (core_exec d (orm_to_core d q)) = 3.
+Proof. exact count_agree_legacy_refuted. Qed.
+Print Assumptions c41_count_agree_legacy_refuted.
+
+Theorem c41_count_agree_legacy_guarded : forall d q,
+  distinct_items (orm_exec d q false) [] = true ->
+  orm_exec d q true = orm_exec d q false /\ orm_count d q = length (orm_exec d q true).
+Proof. exact count_agree_legacy_guarded. Qed.
+Print Assumptions c41_count_agree_legacy_guarded.
+
+Theorem c41_legacy_rows_le_count : forall d q, length (orm_exec d q true) <= orm_count d q.
+Proof. exact legacy_rows_le_count. Qed.
+Print Assumptions c41_legacy_rows_le_count.
+
+(* ---- non-vacuity ---- *)
+Definition ex_db : db :=
+  {| ps := [ {| p_id := 1; p_x := Some 1%Z |}; {| p_id := 2; p_x := None |}; {| p_id := 3; p_x := Some 2%Z |} ];
+     cs := [ {| c_id := 4; c_pid := Some 1%Z; c_y := Some 1%Z; c_kind := 0 |};
+             {| c_id := 5; c_pid := Some 1%Z; c_y := Some 1%Z; c_kind := 1 |};
+             {| c_id := 6; c_pid := Some 2%Z; c_y := None; c_kind := 1 |};
+             {| c_id := 9; c_pid := None; c_y := Some 1%Z; c_kind := 1 |} ] |}.
+
+(* outer join to of_type(Sub): parent 3 (no children) and nobody else gets the None entity; parent 1 twice
+   would be the same object *)
+Example c41_ex_outer_join :
+  orm_exec ex_db (QJoinPC true TgSub STrue STrue BothEnt) false =
+  [ [IEnt 0 1; IEnt 1 5]; [IEnt 2 2; IEnt 3 6]; [IEnt 4 3; INone] ]%Z
+  /\ query_ok ex_db (QJoinPC true TgSub STrue STrue BothEnt) = true.
+Proof. split; vm_compute; reflexivity. Qed.
+
+(* NOT any(y = 1): parents 2 (child with NULL y) and 3 (no child); the orphan child 9 counts for nobody *)
+Example c41_ex_not_any :
+  meaning ex_db (QP (PNot (PAny (SCmp OEq 1)))) = [[Some 2]; [Some 3]]%Z /\
+  core_exec ex_db (orm_to_core ex_db (QP (PNot (PAny (SCmp OEq 1))))) = [[Some 2]; [Some 3]]%Z.
+Proof. split; vm_compute; reflexivity. Qed.
+
+(* a guarded contains(): child 6 belongs to parent 2 *)
+Example c41_ex_contains :
+  query_ok ex_db (QP (PNot (PContains 6))) = true /\
+  meaning ex_db (QP (PNot (PContains 6))) = [[Some 1]; [Some 3]]%Z.
+Proof. split; vm_compute; reflexivity. Qed.
+
+(* the same parent in several rows is one object (oid 0) *)
+Example c41_ex_identity :
+  orm_exec ex_db (QJoinPC false TgC STrue STrue BothEnt) false =
+  [ [IEnt 0 1; IEnt 1 4]; [IEnt 0 1; IEnt 2 5]; [IEnt 3 2; IEnt 4 6] ]%Z.
+Proof. vm_compute; reflexivity. Qed.
+
+Example c41_ex_legacy_guard :
+  distinct_items (orm_exec ex_db (QJoinPC false TgC STrue STrue BothEnt) false) [] = true.
 Proof. vm_compute; reflexivity. Qed.
